@@ -35,7 +35,8 @@ import (
 //
 // Oracle (exactly the statement): at every quiescent point between two events the number of running
 // instances of the singleton (PreStart returned nil, PostStop not yet entered), summed over all
-// nodes, is at most 1.
+// nodes, is at most 1. The signature says where (one node / two nodes), whether a leader change
+// preceded it and whether the name was already registered when the second instance started.
 // ---------------------------------------------------------------------------------------------
 
 type c36State struct {
@@ -43,6 +44,8 @@ type c36State struct {
 	mu      sync.Mutex
 	running []int // per node
 	started []int // per node
+	// dupCtx: was the name already registered in the cluster when a SECOND instance started?
+	dupCtx string
 }
 
 var c36Cur atomic.Pointer[c36State]
@@ -58,7 +61,21 @@ func (a *c36Singleton) PreStart(ctx *Context) error {
 	if n < 0 {
 		return fmt.Errorf("c36: unknown system")
 	}
+	st.w.mu.Lock()
+	_, registered := st.w.actors[ctx.ActorName()]
+	st.w.mu.Unlock()
 	st.mu.Lock()
+	tot := 0
+	for _, k := range st.running {
+		tot += k
+	}
+	if tot >= 1 && st.dupCtx == "" {
+		if registered {
+			st.dupCtx = "although-the-name-was-already-registered"
+		} else {
+			st.dupCtx = "before-any-registration-was-published"
+		}
+	}
 	st.running[n]++
 	st.started[n]++
 	st.mu.Unlock()
@@ -178,6 +195,7 @@ func c36Run(t *testing.T, cfg c36Cfg, c *vsched.Chooser) (out vsched.Outcome) {
 				}
 			}
 			snap := fmt.Sprint(st.running)
+			dup := st.dupCtx
 			st.mu.Unlock()
 			if tot > maxRun {
 				maxRun = tot
@@ -198,6 +216,7 @@ func c36Run(t *testing.T, cfg c36Cfg, c *vsched.Chooser) (out vsched.Outcome) {
 				} else {
 					sig += "-with-a-stable-leader"
 				}
+				sig += "-second-started-" + dup
 				viol = append(viol, vsched.Fail(sig, "nodes=%d calls=%v: %d instances of singleton \"single\" are running at the same time (per node %s), leader changes so far %d; events [%s]", cfg.nodes, cfg.calls, tot, snap, flips, w.traceString()))
 			}
 		}
